@@ -9,6 +9,10 @@ COMMON_ASSUMPTIONS = [
 MC_PEERSYNC = {"module": "MC_PeerSync", "cfg": {"quick": "MC_PeerSync_quick.cfg", "thorough": "MC_PeerSync.cfg"},
                "timeout": {"quick": 600, "thorough": 3000}, "workers": 8}
 
+# LastN larger than the chain (every header is a "last" one) with a requestable fork switch 7 -> 12
+MC_PEERSYNC_SHORT = {"module": "MC_PeerSync", "cfg": {"quick": "MC_PeerSync_short.cfg", "thorough": "MC_PeerSync_short.cfg"},
+                     "timeout": {"quick": 900, "thorough": 3000}, "workers": 12}
+
 def peersync(mode, nq, nt, pq=4, pt=12, extra=None):
     return {"name": "peersync-" + mode, "driver": "peersync", "args": ["mode=" + mode] + (extra or []),
             "n": {"quick": nq, "thorough": nt}, "procs": {"quick": pq, "thorough": pt}}
@@ -194,7 +198,7 @@ CHECKS = {
     },
     "C12": {
         "trace_module": "Trace_PeerSync",
-        "mc": [MC_PEERSYNC],
+        "mc": [MC_PEERSYNC, MC_PEERSYNC_SHORT],
         "drivers": [peersync("tip", 120, 800, 2, 8), peersync("tipeq", 60, 400, 1, 4), peersync("honest", 30, 200, 2, 4)],
         "assumptions": COMMON_ASSUMPTIONS,
     },
